@@ -64,7 +64,26 @@ Proof.
 Qed.
 Print Assumptions C13_children_positions.
 
-(* adaptive_subdomains: the propagated tag consists of the children listed above (set semantics of
+(* no cell lost or duplicated: exactly class_size children per cell (1 / 4 / 3 / 3 / 2) *)
+Theorem C13_cell_count : forall p tb F,
+  let s := split_elements gen_split_blocks p tb F in
+  length (as_t s)
+  = list_sum (map (fun c => class_size gen_split_blocks c * count_cls (as_cls s) c) (seq 0 (length gen_split_blocks))).
+Proof.
+  intros p tb F s. unfold s, split_elements. cbn [as_t as_cls]. apply split_cell_count. apply map_length.
+Qed.
+Print Assumptions C13_cell_count.
+
+(* adaptive_subdomains: the propagated tag np.setdiff1d(np.unique(new_t[:, ixs]), [-1]) is exactly the set of the
+   children (positions as in C13_children_positions) of the tagged cells *)
+Theorem C13_adaptive_subdomains : forall cls ixs c,
+  In c (propagate_adaptive gen_split_blocks gen_split_submap cls ixs) <->
+  exists k j, In k ixs /\ j < class_size gen_split_blocks (nth k cls 0) /\
+              c = gen_split_submap (count_cls cls) (nth k cls 0) j (rank_in_cls cls k).
+Proof. exact (propagate_adaptive_spec gen_split_blocks gen_split_submap). Qed.
+Print Assumptions C13_adaptive_subdomains.
+
+(* the propagated tag consists of the children listed above (set semantics of
    setdiff1d(unique(new_t[:, ixs]), [-1]) are those of the sorted, de-duplicated list) *)
 Theorem C13_new_nodes : forall dim p facets F f,
   length F = length facets -> f < length facets -> mk F f = true ->
